@@ -244,3 +244,75 @@ func verifH_C08_undecodable() {
 	}
 	verifReach("end")
 }
+
+//verif:harness id=C08 tier=quick,thorough witness=end bounds="object-valued response header (style simple): schema {a: integer required, b: integer, additionalProperties false}; explode unset / false / true; header text from a pool of 8 (a,1 | a=1 | a,1,b,2 | a=1,b=2 | a,x | b,2 | a | a,1,c,3): with explode unset or false the text is key,value,key,value, with explode true key=value,key=value; the response passes iff the text in the declared form denotes an object the schema accepts"
+func verifH_C08_object_header() {
+	d := "d"
+	one := 1.0
+	_ = one
+	intS := &openapi3.SchemaRef{Value: &openapi3.Schema{Type: &openapi3.Types{"integer"}}}
+	no := false
+	obj := &openapi3.SchemaRef{Value: &openapi3.Schema{Type: &openapi3.Types{"object"}, Required: []string{"a"},
+		Properties:           openapi3.Schemas{"a": intS, "b": intS},
+		AdditionalProperties: openapi3.AdditionalProperties{Has: &no}}}
+	h := &openapi3.Header{Parameter: openapi3.Parameter{Required: true, Schema: obj}}
+	explode := false
+	switch verifChoose("explode", 3) {
+	case 1:
+		f := false
+		h.Explode = &f
+	case 2:
+		t := true
+		h.Explode = &t
+		explode = true
+	}
+	resp := &openapi3.Response{Description: &d, Headers: openapi3.Headers{"X-O": &openapi3.HeaderRef{Value: h}}}
+	resps := openapi3.NewResponsesWithCapacity(1)
+	resps.Set("200", &openapi3.ResponseRef{Value: resp})
+	op := &openapi3.Operation{Responses: resps}
+	text := []string{"a,1", "a=1", "a,1,b,2", "a=1,b=2", "a,x", "b,2", "a", "a,1,c,3"}[verifChoose("text", 8)]
+	hdr := http.Header{"X-O": []string{text}}
+	in := verifRespInput(op, "GET", 200, hdr, nil, &Options{})
+	err := ValidateResponse(context.Background(), in)
+
+	// reference: the text under the declared form
+	items := strings.Split(text, ",")
+	props := map[string]string{}
+	wellFormed := true
+	if explode {
+		for _, it := range items {
+			kv := strings.SplitN(it, "=", 2)
+			if len(kv) != 2 {
+				wellFormed = false
+				break
+			}
+			props[kv[0]] = kv[1]
+		}
+	} else {
+		if len(items)%2 != 0 {
+			wellFormed = false
+		} else {
+			for i := 0; i < len(items); i += 2 {
+				props[items[i]] = items[i+1]
+			}
+		}
+	}
+	want := wellFormed
+	if want {
+		_, hasA := props["a"]
+		want = hasA
+		for k, v := range props {
+			if k != "a" && k != "b" {
+				want = false
+			}
+			if _, ok := verifTyped(v, "integer"); !ok {
+				want = false
+			}
+		}
+	}
+	if wellFormed && !want && len(props) == 2 && props["c"] == "3" {
+		verifKnown("C08-object-header-undeclared-member-dropped", true)
+	}
+	verifAssert((err == nil) == want, "C08 object header: the header text is read in the declared form (explode defaults to false for headers) and the object validated")
+	verifReach("end")
+}
